@@ -1029,7 +1029,7 @@ func (x *Exec) appendBuiltin(fr *Frame, st *State, args []Value, c *ssa.CallComm
 	res := VSlice{Backing{Heap: true, Ref: ref}, IntLit(0), nl, nc}
 	// contents: prefix preserved, single appended element placed (common case: append(s, e))
 	if a, ok := args[1].(VSlice); ok {
-		if l, ok := a.Len.Lit(); ok && l.Int64() <= 4 && kindOf(et) != KStruct && kindOf(et) != KSlice && kindOf(et) != KIface {
+		if kindOf(et) != KStruct && kindOf(et) != KSlice && kindOf(et) != KIface {
 			if key, hs, ok := elemsKey(et); ok {
 				old, ok1 := x.arrayOfBacking(fr, st, s.Back, et)
 				src, ok2 := x.arrayOfBacking(fr, st, a.Back, et)
@@ -1039,8 +1039,15 @@ func (x *Exec) appendBuiltin(fr *Frame, st *State, args []Value, c *ssa.CallComm
 					q := Term{fmt.Sprintf("i!q%d", x.vc.ctr), SInt}
 					body := Implies(And(Le(IntLit(0), q), Lt(q, s.Len)), Eq(Select(na, q), Select(old, Add(s.Off, q))))
 					x.assume(st, Term{fmt.Sprintf("(forall ((%s Int)) %s)", q.S, body.S), SBool})
-					for k := int64(0); k < l.Int64(); k++ {
-						x.assume(st, Eq(Select(na, Add(s.Len, IntLit(k))), Select(src, Add(a.Off, IntLit(k)))))
+					if l, ok := a.Len.Lit(); ok && l.Int64() <= 4 {
+						for k := int64(0); k < l.Int64(); k++ {
+							x.assume(st, Eq(Select(na, Add(s.Len, IntLit(k))), Select(src, Add(a.Off, IntLit(k)))))
+						}
+					} else {
+						x.vc.ctr++
+						q2 := Term{fmt.Sprintf("j!q%d", x.vc.ctr), SInt}
+						body2 := Implies(And(Le(IntLit(0), q2), Lt(q2, a.Len)), Eq(Select(na, Add(s.Len, q2)), Select(src, Add(a.Off, q2))))
+						x.assume(st, Term{fmt.Sprintf("(forall ((%s Int)) %s)", q2.S, body2.S), SBool})
 					}
 					x.heapSet(st, key, Store(x.heapGet(st, key, hs), ref, na))
 				}
